@@ -11,6 +11,7 @@ MOLS = multiprocessing.Value('i', 0)        # number of write_pysam calls (all p
 WORKER_COUNTS = {k: multiprocessing.Value('i', 0) for k in ('write_pysam', 'mol_next', 'write_tags')}
 ORIG = {}
 POOLS = []
+WORKER_FIRED = multiprocessing.Value('i', 0)   # faults that fired inside pool workers
 
 
 CASE_TIMEOUT = 40
@@ -28,12 +29,56 @@ class InjectedBase(BaseException):
     """stands for KeyboardInterrupt / SystemExit: not an Exception"""
 
 
+# exception classes that can be injected (fault['exc']); code = 1 + StatusLang kind code
+def make_exc(name, msg):
+    import errno
+    if name == 'RuntimeError':
+        return RuntimeError(msg)
+    if name == 'ValueError':
+        return ValueError(msg)
+    if name == 'ENOSPC':
+        return OSError(errno.ENOSPC, msg)
+    if name == 'EIO':
+        return OSError(errno.EIO, msg)
+    if name == 'IOError':
+        return IOError(msg)
+    if name == 'TimeoutError':
+        return TimeoutError(msg)
+    if name == 'MemoryError':
+        return MemoryError(msg)
+    if name == 'KeyboardInterrupt':
+        return KeyboardInterrupt(msg)
+    if name == 'InjectedBase':
+        return InjectedBase(msg)
+    return Injected(msg)
+
+
+def classify_exc(e):
+    """-> outcome code of the model: 1 + kind (KRuntime 0, KValue 1, KOS 2, KTimeout 3, KMemory 4, KOther 5, KBase 6)"""
+    if isinstance(e, TimeoutError):
+        return 4
+    if isinstance(e, OSError):
+        return 3
+    if isinstance(e, ValueError):
+        return 2
+    if isinstance(e, RuntimeError):
+        return 1
+    if isinstance(e, MemoryError):
+        return 5
+    if isinstance(e, Exception):
+        return 6
+    return 7
+
+
 def boom(flt):
     if flt.get('kind') == 'kill':
         os.kill(os.getpid(), signal.SIGKILL)      # only used when the tagger runs in a forked child
+    msg = 'injected at %s' % flt['point']
+    if flt.get('exc'):
+        raise make_exc(flt['exc'], msg)
     if flt.get('kind') in ('base', 'base_partial'):
-        raise InjectedBase('injected at %s' % flt['point'])
-    raise Injected('injected at %s' % flt['point'])
+        raise InjectedBase(msg)
+    raise Injected(msg)
 
 
 def in_main():
@@ -64,6 +109,9 @@ def hit(point, **ctx):
         if 'first' in flt and k >= flt['first']:
             continue
         STATE['fired'].append(point)
+        if not in_main():
+            with WORKER_FIRED.get_lock():
+                WORKER_FIRED.value += 1
         return flt
     return None
 
@@ -230,6 +278,8 @@ def worker_entry(args):
         SHARED.value += 1
     for flt in STATE['faults']:
         if flt['point'] == 'worker' and flt.get('after', 0) == k:
+            with WORKER_FIRED.get_lock():
+                WORKER_FIRED.value += 1
             boom(flt)
     return ORIG['rtt'](args)
 
@@ -358,6 +408,67 @@ def prepare_inputs(scratch, repo, small_n):
     INPUTS['nla'] = dst
 
 
+def write_version(src, dst, n_reads=None, move_from=None):
+    """the first n_reads records of src; records move_from.. are placed on the next contig of the
+    header (the file stays coordinate sorted)"""
+    import pysam
+    with pysam.AlignmentFile(src) as f:
+        nref = f.nreferences
+        with pysam.AlignmentFile(dst, 'wb', header=f.header) as o:
+            for i, r in enumerate(f.fetch(until_eof=True)):
+                if n_reads is not None and i >= n_reads:
+                    break
+                if move_from is not None and i >= move_from and 0 <= r.reference_id < nref - 1:
+                    r.reference_id += 1
+                    if 0 <= r.next_reference_id < nref - 1:
+                        r.next_reference_id += 1
+                o.write(r)
+
+
+def prepare_input(case, inp):
+    """the input of one run, with its history:
+       fresh               : the BAM with an up to date index
+       missing_index       : the BAM without .bai
+       stale_index_shorter : an earlier version holding only the first third of the records was indexed;
+                             the file was then regenerated with all records, the OLD .bai left behind
+       stale_index_longer  : the complete file was indexed; it was then regenerated with two thirds of
+                             the records, the second half of them on the next contig, the OLD .bai left behind
+       (a left-behind index is older than the BAM).  Returns True when the records of the current input
+       differ from the configuration's standard input (a separate reference run is then needed)."""
+    src = INPUTS[case['bam']]
+    hist = case.get('input', 'fresh')
+    if hist == 'fresh':
+        shutil.copy(src, inp)
+        shutil.copy(src + '.bai', inp + '.bai')
+        os.utime(inp + '.bai')
+        return False
+    if hist == 'missing_index':
+        shutil.copy(src, inp)
+        return False
+    import pysam
+    with pysam.AlignmentFile(src) as f:
+        n = sum(1 for _ in f.fetch(until_eof=True))
+    if hist == 'stale_index_shorter':
+        write_version(src, inp, n_reads=max(1, n // 3))
+        ORIG['index'](inp)
+        old_bai = open(inp + '.bai', 'rb').read()
+        write_version(src, inp)
+    elif hist == 'stale_index_longer':
+        write_version(src, inp)
+        ORIG['index'](inp)
+        old_bai = open(inp + '.bai', 'rb').read()
+        n_reads = (2 * n) // 3
+        write_version(src, inp, n_reads=n_reads, move_from=n_reads // 2)
+    else:
+        raise ValueError('unknown input history %r' % hist)
+    with open(inp + '.bai', 'wb') as fh:        # the index of the earlier version stays
+        fh.write(old_bai)
+    t = time.time()
+    os.utime(inp, (t - 600, t - 600))
+    os.utime(inp + '.bai', (t - 3600, t - 3600))
+    return hist == 'stale_index_longer'
+
+
 def command(case, inp, out):
     cmd = [inp, '-method', case['method'], '-o', out]
     if case['mp']:
@@ -375,11 +486,10 @@ def run_tagger(tm, case, d, out, faults):
     MOLS.value = 0
     for v in WORKER_COUNTS.values():
         v.value = 0
+    WORKER_FIRED.value = 0
     inp = os.path.join(d, 'input.bam')
     if not os.path.exists(inp):
-        shutil.copy(INPUTS[case['bam']], inp)
-        shutil.copy(INPUTS[case['bam']] + '.bai', inp + '.bai')
-        os.utime(inp + '.bai')
+        prepare_input(case, inp)
     err = None
     cwd = os.getcwd()
     os.chdir(d)
@@ -409,26 +519,18 @@ def run_tagger(tm, case, d, out, faults):
             except OSError:
                 pass
             if os.WIFSIGNALED(wst):
-                raised, err = 2, 'killed by signal %d (injected)' % os.WTERMSIG(wst)
+                raised, err = 7, 'killed by signal %d (injected)' % os.WTERMSIG(wst)
                 STATE['fired'].append('kill')
             else:
-                raised, err = (0, None) if os.WEXITSTATUS(wst) == 0 else (1, 'child raised')
+                raised, err = (0, None) if os.WEXITSTATUS(wst) == 0 else (6, 'child raised')
         else:
             with contextlib.redirect_stdout(buf), contextlib.redirect_stderr(buf):
                 tm.run_multiome_tagging_cmd(command(case, inp, out))
             raised = 0
     except HarnessTimeout as e:
-        raised, err = 3, 'HANG: %s' % e
-    except InjectedBase as e:
-        raised, err = 2, 'InjectedBase: %s' % e
-    except Injected as e:
-        raised, err = 1, 'Injected: %s' % e
-    except SystemExit as e:
-        raised, err = 2, 'SystemExit: %s' % e
-    except KeyboardInterrupt as e:
-        raised, err = 2, 'KeyboardInterrupt'
+        raised, err = 99, 'HANG: %s' % e
     except BaseException as e:
-        raised, err = 1, '%s: %s' % (type(e).__name__, str(e)[:200])
+        raised, err = classify_exc(e), '%s: %s' % (type(e).__name__, str(e)[:200])
     finally:
         signal.alarm(0)
         signal.signal(signal.SIGALRM, old_handler)
@@ -446,7 +548,13 @@ def run_tagger(tm, case, d, out, faults):
         for p in multiprocessing.active_children():
             p.terminate()
         gc.collect()
-    return raised, err, dict(STATE['counts'], fired=list(STATE['fired'])), SHARED.value, MOLS.value
+    fired = list(STATE['fired']) + ['worker-side'] * WORKER_FIRED.value
+    return raised, err, dict(STATE['counts'], fired=fired), SHARED.value, MOLS.value
+
+
+def pysam_open(path):
+    import pysam
+    return pysam.AlignmentFile(path)
 
 
 def handler(p):
@@ -485,8 +593,28 @@ def handler(p):
                 for ext in ('.bam', '.bam.bai', '.status.txt'):
                     shutil.copy2(os.path.join(ref['dir'], 'out' + ext), os.path.join(d, 'out' + ext))
                 os.utime(os.path.join(d, 'out.bam.bai'))
+            ref_recs = ref['recs']
+            if case.get('input', 'fresh') not in ('fresh', 'missing_index'):
+                # the records of the CURRENT input: a fault-free run on the same file with a fresh index
+                rd = os.path.join(scratch, 'refin_%d' % n)
+                os.makedirs(rd)
+                prepare_input(full, os.path.join(rd, 'input.bam'))
+                if os.path.exists(os.path.join(rd, 'input.bam.bai')):
+                    ORIG['remove'](os.path.join(rd, 'input.bam.bai'))
+                ORIG['index'](os.path.join(rd, 'input.bam'))
+                ro = os.path.join(rd, 'out.bam')
+                r_raised, r_err, _, _, _ = run_tagger(tm, dict(full, input='fresh'), rd, ro, [])
+                ref_recs = read_bam(ro)['recs'] if os.path.exists(ro) and not r_raised else None
+                with pysam_open(os.path.join(rd, 'input.bam')) as f:
+                    n_in = sum(1 for _ in f.fetch(until_eof=True))
+                if ref_recs is None or len(ref_recs) != n_in:
+                    raise RuntimeError('reference run on the regenerated input failed: %r' % (r_err,))
+                ORIG['rmtree'](rd, ignore_errors=True)
+            t0 = time.time()
             raised, err, counts, jobs, mols = run_tagger(tm, full, d, o, case['faults'])
-            obs = observe(d, o, ref['recs'])
+            t1 = time.time()
+            obs = observe(d, o, ref_recs)
+            obs['seconds'] = [round(t1 - t0, 2), round(time.time() - t1, 2)]
             obs.update({'raised': raised, 'error': err, 'jobs': jobs, 'molecules': mols,
                         'fired': counts.get('fired', []) + (['worker-side'] if err and 'njected' in err and not counts.get('fired') else [])})
             out['cases'].append(obs)
